@@ -145,8 +145,8 @@ example : setArrayItems [0x98, 0x02, 0xa0, 0xa0] 1 = none := by decide
 def C01_reencode_full (marshalOf : Stored → Bytes) : Prop :=
   ∀ s re, marshalOf { cbor := some s, reencoded := re } = s
 
-/-- It holds for the stored-bytes pattern (Shelley..Dijkstra blocks, transactions, Mary
-    bodies, Babbage witness sets, every Dijkstra component). -/
+/-- It holds for the stored-bytes pattern (Shelley..Dijkstra blocks, transactions, the
+    Dijkstra header, Mary bodies, Babbage witness sets). -/
 theorem C01_reencode_partial : C01_reencode_full marshal := fun _ _ => rfl
 
 /-- A type without that pattern re-encodes its fields; on a non-minimally encoded
